@@ -124,7 +124,7 @@ def interp(pp, e, env):
         return a.Log()
     if op == "matrix":
         return a.matrix().reshape(-1)
-    if op == "tensor":
+    if op in ("tensor", "gtensor"):
         return a.tensor()
     b = interp(pp, e["b"], env)
     if op == "mul":
@@ -258,12 +258,29 @@ def exact_events(ctx, ty, dtype, nprog, maxd):
             y, Js = jac_by(api, pp, torch, ty, prog, g.kinds, g.vals, dtype)
         except Exception as ex:  # a well-typed program must be differentiable by every entry point
             ev.append({"ty": ty, "prog": prog, "kinds": g.kinds, "vals": [[L.dy(v) for v in x] for x in g.vals],
-                       "value": [], "jac": [], "finite": False, "api": api, "raised": repr(ex)[:300], "depth": depth(prog)})
+                       "value": [], "jac": [], "finite": False, "api": api, "raised": repr(ex)[:300], "depth": depth(prog),
+                       "zero_only": False})
             continue
         fin = bool(torch.isfinite(y).all() and all(torch.isfinite(j).all() for j in Js))
         ev.append({"ty": ty, "prog": prog, "kinds": g.kinds, "vals": [[L.dy(v) for v in x] for x in g.vals],
                    "value": L.dyvec(y), "jac": [[L.dyvec(row) for row in j] for j in Js], "finite": fin,
-                   "api": api, "depth": depth(prog)})
+                   "api": api, "depth": depth(prog), "zero_only": False})
+    # group-valued outputs (raw coordinates, every unit cotangent incl. the last coordinate): only the zero slot
+    for k in range(max(2, nprog // 4)):
+        g = Gen(rng, ty)
+        g.sorts = []
+        prog = {"op": "gtensor", "a": g.expr("G", rng.randint(1, maxd - 1))}
+        if len(set(_inputs(prog))) != len(g.vals) or "G" not in g.kinds or prog["a"]["op"] == "in":
+            continue      # (the raw coordinates of an input itself are plain tensor autograd, no Lie operator involved)
+        api = ["grad", "backward", "functional", "jacrev"][k % 4]
+        try:
+            y, Js = jac_by(api, pp, torch, ty, prog, g.kinds, g.vals, dtype)
+            fin = bool(torch.isfinite(y).all() and all(torch.isfinite(j).all() for j in Js))
+            jac = [[L.dyvec(row) for row in j] for j in Js]
+        except Exception as ex:
+            fin, jac, y = False, [[] for _ in g.vals], None
+        ev.append({"ty": ty, "prog": prog, "kinds": g.kinds, "vals": [[L.dy(v) for v in x] for x in g.vals],
+                   "value": [], "jac": jac, "finite": fin, "api": api, "depth": depth(prog), "zero_only": True})
     return ev
 
 
@@ -397,6 +414,36 @@ def num_events(ctx, ty, dtype):
             zl = R.log_ref(ty, R.exp_ref(ty, xf) * My) if ty == "Sim3" else None
             a3 = 0 if ty != "Sim3" else min(R.CAP, allow_for(xf, 5040, scale3) + allow_for(zl, 30240, scale3))
             emit("grad_logexp", got, ref, cell, a3, x=xf)
+    # ---- P4: Jinvp(X, p) away from the zero rotation, w.r.t. X (left perturbation) and p.  Sim3 is left out: its Jinvp is a
+    # documented truncated series and the property gives no bound for the derivative of the truncation.
+    if ty != "Sim3":
+        h2 = mp.mpf(10) ** -10
+        for r in ([0.3, 2.4] if q else [0.3, 1.1, 2.4]):
+            for t in (tras if ty == "SE3" else [0.0]):
+                cell = (r, t, sigs[-1])
+                xv = alg(cell)
+                Xv = L.mkalg(ty, xv, dtype).Exp().tensor().detach()
+                X = pp.LieTensor(Xv.clone(), ltype=getattr(pp, ty + "_type")).requires_grad_(True)
+                pv = rand_dir(rng, n)
+                p = L.mkalg(ty, pv, dtype).requires_grad_(True)
+                y = X.Jinvp(p).tensor()
+                rx = rows_of(y, X)
+                rp = rows_of(y, p)
+                zero_ok = all(row[n] == 0 for row in rx)
+                M = R.mat_of(ty, Xv.tolist())
+                pf = p.tensor().detach().tolist()
+                colsX, colsP = [], []
+                for i in range(n):
+                    e = [0.0] * n
+                    e[i] = 1.0
+                    Ep, Em = mp.expm(h2 * R.hat4(ty, e), method="taylor"), mp.expm(-h2 * R.hat4(ty, e), method="taylor")
+                    fp, fm = R.jlinv_fd_mat(ty, Ep * M, pf), R.jlinv_fd_mat(ty, Em * M, pf)
+                    colsX.append([(a - b) / (2 * h2) for a, b in zip(fp, fm)])
+                    colsP.append(R.jlinv_fd_mat(ty, M, e))
+                refX = [[colsX[i][k] for i in range(n)] for k in range(n)]
+                refP = [[colsP[i][k] for i in range(n)] for k in range(n)]
+                emit("grad_jinvp_X", [row[:n] for row in rx], refX, cell, 0, zero_ok=zero_ok, x=Xv.tolist())
+                emit("grad_jinvp_p", rp, refP, cell, 0, x=Xv.tolist())
     return ev
 
 
